@@ -45,6 +45,7 @@ W_SCALE = 'scaling all loads up increases the lifetime'
 W_ROUGH = 'a rougher surface increases the lifetime'
 W_PA = 'a smaller failure probability increases the lifetime'
 W_QUANT = 'N_10 <= N_50 <= N_90 violated'
+W_ERR = 'assessment raises on one side of the relation only'
 
 
 def close(a, b, rt=RT):
@@ -92,14 +93,18 @@ def refine_simple(rng, s):
 def gen_sequence(rng, j):
     """(sequence, kind).  'edge' sequences are the library's own test sequences (round numbers: many loads on look-up class
     edges); the others avoid class edges."""
-    kind = ['suite', 'jitter', 'random', 'random', 'jitter', 'random'][j % 6]
-    if kind == 'random':
+    kind = ['suite', 'jitter', 'random', 'ties', 'jitter', 'random'][j % 6]
+    if kind in ('random', 'ties'):
         n = rng.randint(2, 16)
         amp = rng.uniform(120, 420)
         s = [round(rng.uniform(-amp, amp), 3) for _ in range(n)]
         if rng.random() < 0.3:                      # mostly tensile / compressive sequences
             off = rng.choice([-1, 1]) * amp * 0.6
             s = [round(0.4 * x + off, 3) for x in s]
+        if kind == 'ties':                          # repeated and nearly repeated extremes (the HCM compares loads with 1e-12 tolerances)
+            for k in range(1, len(s)):
+                if rng.random() < 0.45:
+                    s[k] = rng.choice([1, -1]) * s[rng.randrange(k)] + rng.choice([0.0, 0.0, 0.4, -0.7, 0.05])
     else:
         base = rng.choice(fkmnl.SUITE[:13])
         m = max(abs(v) for v in base)
@@ -191,9 +196,16 @@ def edge_dist(seq):
 
 def judge(item, sums):
     """-> (list of (what, measure, detail), rejected?)   measure in RAM_life / RAJ_life / RAM_inf / RAJ_inf / ..."""
-    if any('error' in s for s in sums):
+    errs = ['error' in s for s in sums]
+    if all(errs):
         return [], True
     k = item['kind']
+    if any(errs):
+        # the implementation accepts one side of the relation and raises on the other: for batch / refine / scale (c >= 1 keeps every
+        # load inside the table that is scaled along) both sides are equally admissible inputs
+        if k in ('batch', 'refine', 'scale'):
+            return [(W_ERR, 'call', {'errors': [s.get('error') for s in sums]})], False
+        return [], True
     out = []
     a = sums[0]
     if k == 'batch':
@@ -320,6 +332,8 @@ def register_classes(res):
 
 
 def wname(what, measure):
+    if what == W_ERR:
+        return what
     tag = {'RAM_life': 'P_RAM lifetime', 'RAJ_life': 'P_RAJ lifetime', 'RAM_times': 'P_RAM lifetime', 'RAJ_times': 'P_RAJ lifetime',
            'RAM_inf': 'P_RAM infinite-life verdict', 'RAJ_inf': 'P_RAJ infinite-life verdict'}.get(measure)
     if tag is None:      # N_10 / N_50 / N_90
@@ -369,10 +383,11 @@ def contract_checks(res, items, table):
                     pa_, pb_ = ca['P_' + t][0], cb['P_' + t][0]
                     if t == 'RAM' and not all(le(x, y) for x, y in zip(pa_, pb_)):
                         fail(names[2], {'item': it, 'P before': pa_, 'P after': pb_})
-            counts[names[5]] += 1
-            la, lb = a['RAM_Lmax'][0], b['RAM_Lmax'][0]
-            if not (la > 0 and lb >= la * (1 - 1e-12)):
-                fail(names[5], {'item': it, 'Lmax': [la, lb]})
+            if a.get('RAM_Lmax') and b.get('RAM_Lmax'):
+                counts[names[5]] += 1
+                la, lb = a['RAM_Lmax'][0], b['RAM_Lmax'][0]
+                if not (la > 0 and lb >= la * (1 - 1e-12)):
+                    fail(names[5], {'item': it, 'Lmax': [la, lb]})
         if it['kind'] == 'refine' and not cls_trailing_repeat({'item': it}):     # the contract excludes a repeated LAST sample (Pipeline.ins1)
             b = sums[1]
             for t in ('RAM', 'RAJ'):
@@ -385,9 +400,10 @@ def contract_checks(res, items, table):
                         break
         if it['kind'] == 'batch':
             b, i = sums[1], it['i']
-            counts[names[6]] += 1
-            if not close(b['RAM_Lmax'][i], a['RAM_Lmax'][0], 1e-12) or not close(b['RAJ_Lmax'][i], a['RAJ_Lmax'][0], 1e-12):
-                fail(names[6], {'item': it, 'table maximum batch/single': [b['RAM_Lmax'][i], a['RAM_Lmax'][0]]})
+            if all(x.get(k_) for x in (a, b) for k_ in ('RAM_Lmax', 'RAJ_Lmax')):
+                counts[names[6]] += 1
+                if not close(b['RAM_Lmax'][i], a['RAM_Lmax'][0], 1e-12) or not close(b['RAJ_Lmax'][i], a['RAJ_Lmax'][0], 1e-12):
+                    fail(names[6], {'item': it, 'table maximum batch/single': [b['RAM_Lmax'][i], a['RAM_Lmax'][0]]})
             km_b, km_a = b.get('RAJ_klass_max'), a.get('RAJ_klass_max')
             if km_b and km_a:
                 own_ok = close(km_b[i], km_a[0], 1e-9)
@@ -403,8 +419,10 @@ def contract_checks(res, items, table):
                 if not close(Dv, want, 1e-12):
                     fail(names[3], {'item': it, 'P_RAM': Pv, 'N': Nv, 'D': Dv})
                     break
-            counts[names[7]] += 1
             for t in ('RAM', 'RAJ'):
+                if not a.get(t + '_lut'):
+                    continue
+                counts[names[7]] += 1
                 lut = a[t + '_lut'][0]
                 nb = a[t + '_nbins']
                 ok = (len(lut['load']) == nb and len(lut['dload']) == 2 * nb and close(lut['load'][-1], a[t + '_Lmax'][0], 1e-12)
@@ -472,6 +490,53 @@ def accumulate_contract(res, rng, items, table, n):
             bad.append({'item': it, 'factors': up, 'life before/after': [o1[0], o2[0]]})
     res.oblige('contract acc_antitone: DamageCalculatorPRAM on the recorded hysteresis table reproduces the lifetime; larger damage parameters never lengthen it [%d instances]' % len(meta),
                not bad, json.dumps(bad[:2], default=str)[:3000])
+    return bad
+
+
+BETA_TABLE = {1e-7: 5.20, 1e-6: 4.75, 1e-5: 4.27, 7.2e-5: 3.8, 1e-3: 3.09, 2.3e-1: 0.739, 0.5: 0.0}
+
+
+def gamma_model(params, M):
+    """the load safety factor of Pipeline.v (gamma_normal / gamma_const) for the parameter set, M = maximum absolute load"""
+    p = dict(fkmnl.BASE_PARAMS)
+    p.update(params or {})
+    p = {k: v for k, v in p.items() if v is not None}
+    if 's_L' in p or 'LSD_s' in p:
+        beta = BETA_TABLE[min(BETA_TABLE, key=lambda q: abs(q - p['P_A']))]
+        fac = (0.7 * beta - 2) if abs(p['P_L'] - 2.5) < 1e-9 else 0.7 * beta
+        if 's_L' in p:
+            return (M + fac * p['s_L']) / M          # gamma_normal alpha M
+        return max(1.0, 10 ** (fac * p['LSD_s']))     # gamma_const
+    return 1.1 if abs(p['P_L'] - 2.5) < 1e-9 else 1.0  # gamma_const
+
+
+def gamma_contract(res, items, n):
+    """contract gamma_ok + tie of gamma_normal / gamma_const: the sequence entering HCM is gamma_L(L_max) * c * sequence with the model's
+    factor; for the scaled sequence it is a common multiple c' >= 1 of the unscaled one"""
+    sc = [it for it in items if it['kind'] == 'scale'][:n]
+    jobs = []
+    for it in sc:
+        jobs += [('prep', it['specs'][0]), ('prep', it['specs'][1])]
+    outs = fkmnl.run_jobs(jobs, procs=1) if jobs else []
+    bad = []
+    for j, it in enumerate(sc):
+        a, b = outs[2 * j], outs[2 * j + 1]
+        if 'error' in a or 'error' in b:
+            continue
+        seq = it['specs'][0]['seq']
+        M = max(abs(v) for v in seq)
+        cfac = dict(fkmnl.BASE_PARAMS, **{k: v for k, v in it['specs'][0]['params'].items() if v is not None})['c']
+        want = gamma_model(it['specs'][0]['params'], M) * cfac
+        fa = [y / x for x, y in zip(seq, a['scaled'][0]) if x != 0]
+        rs = [y / x for x, y in zip(a['scaled'][0], b['scaled'][0]) if x != 0]
+        if not fa or not all(close(f, want, 1e-12) for f in fa) or want <= 0:
+            bad.append({'item': it, 'factor implementation': fa[:3], 'factor model': want})
+        elif not (all(close(r, rs[0], 1e-12) for r in rs) and rs[0] >= 1 - 1e-12):
+            bad.append({'item': it, 'ratios scaled/unscaled': rs[:4]})
+        elif not close(a['Lmax'][0], max(abs(v) for v in a['scaled'][0]), 1e-15):
+            bad.append({'item': it, 'table maximum': a['Lmax'][0]})
+    res.oblige('contract gamma_ok / tie gamma_normal, gamma_const: load entering HCM = gamma_L(L_max) * c * load with the model factor; scaled sequence a common multiple >= 1; '
+               'table maximum = maximum absolute load [%d instances]' % len(sc), not bad, json.dumps(bad[:2], default=str)[:3000])
     return bad
 
 
@@ -575,7 +640,7 @@ def run(res):
     res.assumptions += ['float rounding is outside the theorems; relations are compared at 1e-9 relative, class-edge effects (1e-3..1e-1) are reported, not absorbed',
                         'loads of all points of a batch are positive multiples of one sequence (precondition of the vectorised assessment)',
                         'P_RAJ crack-opening loop / class summation not modelled beyond the dependence on the shared class maximum']
-    res.cov['rule'] = ('cases: sequence = library test sequence (round numbers, loads on class edges) | the same jittered by <= 3 % and rescaled | random (2..16 samples, '
+    res.cov['rule'] = ('cases: sequence = library test sequence (round numbers, loads on class edges) | the same jittered by <= 3 % and rescaled | random (2..16 samples, ' 'ties: random with repeated / nearly repeated extremes, '
                        'amplitude 120..420, some with offset); parameters: load distribution normal/lognormal/blanket/none, P_A from the FKM table or free, P_L, R_m, material group, '
                        'R_z, K_p, c, G; per case the relations batch (2..5 points, ratios 0.2..3, uniform or per-point G, reference point at a random position; quick: 2 points compared, '
                        'thorough: all), refine (0..3 samples per segment: interpolated or repeated), scale (c in 1+1e-4..2), rougher R_z, smaller P_A, N_10<=N_50<=N_90 when P_A=0.5; '
@@ -595,11 +660,13 @@ def run(res):
     for it in items:
         kinds[it['kind']] = kinds.get(it['kind'], 0) + 1
     res.cov['relation_instances'] = kinds
-    res.cov['sequence_kinds'] = {k: sum(1 for it in items if it.get('skind') == k and it['kind'] == 'refine') for k in ('suite', 'jitter', 'random')}
+    res.cov['sequence_kinds'] = {k: sum(1 for it in items if it.get('skind') == k and it['kind'] == 'refine') for k in ('suite', 'jitter', 'random', 'ties')}
 
     bad = contract_checks(res, items, table)
     bad_acc = accumulate_contract(res, rng, items, table, 6 if quick else 40)
+    gamma_contract(res, items, 7 if quick else 60)
     beta_contract(res)
+    res.cov['internals_unavailable'] = sorted({x for s_ in table.values() for x in s_.get('internals_unavailable', [])})
     bearable_tie(res, items, table)
     for it in items[:3]:
         s = table.get(key(it['specs'][0]), {})
